@@ -1,7 +1,59 @@
-(* DBSim.v -- the database running on the linear-hashing bucket chains (Index.v, [chain_ops]) behaves
-   exactly like the database running on the flat reference index (Flat.v, [flat_ops]), for an
-   arbitrary hash function, split policy and thresholds.  (Header with the list of results: see the
-   end of the file.) *)
+(* DBSim.v -- REFINEMENT: the database running on the linear-hashing bucket chains (Index.v,
+   [chain_ops], the index exactly as index.go) behaves exactly like the database running on the flat
+   reference index (Flat.v, [flat_ops], a plain list of slots) -- for an ARBITRARY hash function
+   [p_hash P], split policy [p_grow P], thresholds and sync mode.  Hence the theorems proved for the
+   flat instantiation (DBProofsOps.v: map semantics; crash / recovery files) transfer to every hash
+   layout: identical 32-bit hashes, many keys in one chain, overflow buckets with holes, splits at
+   any moment.  No axioms (Print Assumptions at the end: all "Closed under the global context").
+
+   1. RELATIONS.  Generic in two index types related by [R] (Section Rel):
+        opt_rel R, gob_rel R, gdisk_rel R, gev_rel R, gmem_rel R, gst_rel R
+      "equal in every component, index values ([m_idx], [d_index], [d_imeta], payload of
+      [EIndex]/[EGobIndex] in [s_trace]) related by R";  component-wise characterisations:
+      disk_rel_iff, mem_rel_iff, st_rel_iff.  For the chain index against the flat index:
+        idx_rel p l := PInv p /\ Permutation (all_slots p) l /\ px_nkeys p = nlen l
+        (idx_rel_intro: the third clause follows from the first two)
+        Notation disk_rel / ev_rel / mem_rel / st_rel := (g..._rel idx_rel).
+   2. COMMUTATION LEMMAS (any ops1, ops2 with [R (ix_empty ops1) (ix_empty ops2)]):
+        find_dseg_rel, read_kv_rel, matchf_rel (equality of FUNCTIONS), read_slots_rel, dir_rel,
+        exists_file_rel, total_recs_rel, mem_rel_cur_seg, pick_rel, set_*_rel, track_del_rel,
+        add_delbytes_rel, with_mem_rel, clear_trace_rel, file_removed_rel, apply_ev_rel, emit_rel,
+        emits_rel, seal_rel, swap_segment_rel, write_record_rel, do_sync_rel, finish_rel,
+        remove_segment_rel, fold_seal_rel, sync_rel, compact_pick_rel;
+        write_record_idx (writeRecord never changes [m_idx], any ops).
+      INDEX LAWS (uniq f l := at most one slot of l is accepted by f):
+        get_rel, put_rel, del_rel, repoint_rel, count_rel:  under [idx_rel p l] and uniqueness of the
+        accepted slot, px_get/px_put/px_del/px_repoint and fl_get/fl_put/fl_del/fl_repoint return
+        THE SAME slot and related indexes ("first hit in chain scan order" = "first hit in list order").
+        uniq_hit, uniq_hit_same, uniq_points: the uniqueness follows from [Inv] of the flat state
+        (NoDup of the slot keys + slot_ok).
+   3. OPERATION THEOREMS (sp : st pindex, sf : st flat, st_rel sp sf, Inv P sf):
+        sim_put (+ room, valid k v; NO params_ok), sim_delete (no room), sim_get, sim_get_append,
+        sim_has, sim_count (no Inv), sim_items, sim_items_open, sim_sync (no Inv),
+        sim_compact_pick (no Inv), sim_compact_step (+ _gen: only [points_uniq] of the flat index),
+        sim_compact_run, sim_db_compact (conditional on [cuniq]/[cinv] along the flat run).
+      COMPOSED WITH DBProofsOps:  chain_put_ok, chain_delete_ok, chain_get_ok, chain_get_append_ok,
+        chain_has_ok, chain_count_ok, chain_items_ok, chain_sync_ok;  flat_put_abs, flat_delete_abs
+        ([abs] after Put / Delete is LITERALLY [sput] / [sdel] of [abs] before).
+      RUNS:  op, step, step_chain, step_flat, step_spec, run, op_valid, rooms, out_equiv,
+        step_refines, C01_chain_refines_map, chain_run_states, C01_chain_from_empty.
+      INITIAL STATE:  st0, flat_init, flat_open_fresh, flat_init_Inv, init_rel (for the real
+        [db_open chain_ops] / [db_open flat_ops] on [disk0], by computation).
+   4. EXECUTABLE SIDE CONDITIONS AND EXAMPLE:  op_valid_b, room_b_ok, rooms_b (+ _ok);
+        Module SimEx: 40 colliding keys, one deleted (head bucket with a hole + overflow bucket),
+        then a 41st key that fills the hole: related states, different slot orders, equal outputs.
+
+   DEVIATIONS FROM THE STATEMENTS AS FIRST SKETCHED (none of them weakens the refinement):
+     - sim_items "exists lp lf, ... = OItems lp ..." is FALSE for a closed database (both sides
+       return OErr EClosed).  sim_items is stated with [out_equiv] (true for open and closed);
+       sim_items_open is the exists-form under [s_mem sf <> None].
+     - chain_put_ok, chain_delete_ok, step_refines, C01_* carry [params_ok P] because
+       DBProofsOps.put_ok_ex / delete_ok_ex carry it (their proofs ignore it:
+       DBLemmas.write_record_spec starts with [intros _]).  sim_put itself does not need it.
+     - OpDelete takes ANY key in C01 (no [Forall byte k]): flat_delete_abs shows that a key found in
+       the index is a byte string (del_found_bytes), so delete_ok_ex applies exactly when needed.
+     - Every operation theorem that needs uniqueness takes [Inv P sf] of the FLAT state only;
+       nothing is assumed about the chain state beyond [st_rel]. *)
 From Coq Require Import ZArith Lia ZifyN ZifyNat ZifyBool Permutation.
 From Pogreb Require Import Base BaseLemmas Crc Bytes Record RecordProofs Flat Index Spec DB DBInv
   DBLemmas DBProofsOps.
@@ -1466,3 +1518,99 @@ Example ex_outputs :
      OOk; OVal (Some (val_of 5)); ONum 40; OOk; OOk].
 Proof. split; vm_compute; reflexivity. Qed.
 End SimEx.
+
+(* ================================================================================================ *)
+(** * 8. Whole compactions (conditional on the side condition of [sim_compact_step_gen] along the
+      FLAT run; [Inv] at every step implies it, see [cuniq_of_Inv]) *)
+
+Inductive cuniq (P : params) : nat -> stf -> cursor -> Prop :=
+| cuniq_O s c : cuniq P O s c
+| cuniq_S f s c :
+    (forall m, s_mem s = Some m -> points_uniq (m_idx m)) ->
+    (forall s' c', compact_step flat_ops P s c = CMore s' c' -> cuniq P f s' c') ->
+    cuniq P (S f) s c.
+
+Theorem sim_compact_run P fuel : forall (sp : stp) (sf : stf) c,
+  st_rel sp sf -> cuniq P fuel sf c ->
+  so_rel idx_rel (compact_run chain_ops P fuel sp c) (compact_run flat_ops P fuel sf c).
+Proof.
+  induction fuel as [|f IH]; intros sp sf c Hs Hu; cbn [compact_run].
+  - split; [reflexivity|exact Hs].
+  - inversion Hu as [|? ? ? HU Hnext]; subst.
+    pose proof (sim_compact_step_gen P sp sf c Hs HU) as Hstep.
+    destruct (compact_step chain_ops P sp c) as [|sp' cp'|wp];
+      destruct (compact_step flat_ops P sf c) as [|sf' cf'|wf] eqn:Ef; inversion Hstep; subst.
+    + split; [reflexivity|exact Hs].
+    + apply IH; [assumption|]. apply Hnext. reflexivity.
+    + split; [reflexivity|exact Hs].
+Qed.
+
+Theorem sim_db_compact P (sp : stp) (sf : stf) :
+  st_rel sp sf ->
+  (forall s1 c, compact_pick flat_ops P sf = Some (s1, c) ->
+     cuniq P (S (2 * length (c_todo c) + 2 * total_recs (s_disk s1) + 2)) s1 c) ->
+  so_rel idx_rel (db_compact chain_ops P sp) (db_compact flat_ops P sf).
+Proof.
+  intros Hs Hu. unfold db_compact.
+  pose proof (compact_pick_rel idx_rel chain_ops flat_ops idx_rel_empty P sp sf Hs) as Hp.
+  destruct (compact_pick chain_ops P sp) as [[sp1 cp]|];
+    destruct (compact_pick flat_ops P sf) as [[sf1 cf]|]; unfold pick_res_rel in Hp; try contradiction.
+  - destruct Hp as [Hs1 ->]. rewrite (total_recs_rel _ _ _ (st_rel_disk _ _ _ Hs1)).
+    apply sim_compact_run; [exact Hs1|]. apply Hu. reflexivity.
+  - split; [reflexivity|exact Hs].
+Qed.
+
+(* the side condition from the invariant *)
+Inductive cinv (P : params) : nat -> stf -> cursor -> Prop :=
+| cinv_O s c : cinv P O s c
+| cinv_S f s c :
+    Inv P s -> (forall s' c', compact_step flat_ops P s c = CMore s' c' -> cinv P f s' c') ->
+    cinv P (S f) s c.
+
+Lemma cuniq_of_Inv P fuel : forall s c, cinv P fuel s c -> cuniq P fuel s c.
+Proof.
+  induction fuel as [|f IH]; intros s c H; [constructor|].
+  inversion H as [|? ? ? HI Hn]; subst. constructor.
+  - intros m Em. destruct (Inv_open P s m Em HI) as (_ & Hidx & _). exact (uniq_points P _ _ _ Hidx).
+  - intros s' c' E. apply IH. exact (Hn s' c' E).
+Qed.
+
+(* ================================================================================================ *)
+Print Assumptions apply_ev_rel.
+Print Assumptions write_record_rel.
+Print Assumptions get_rel.
+Print Assumptions put_rel.
+Print Assumptions del_rel.
+Print Assumptions repoint_rel.
+Print Assumptions sim_put.
+Print Assumptions sim_delete.
+Print Assumptions sim_get.
+Print Assumptions sim_get_append.
+Print Assumptions sim_has.
+Print Assumptions sim_count.
+Print Assumptions sim_items.
+Print Assumptions sim_items_open.
+Print Assumptions sim_sync.
+Print Assumptions sim_compact_pick.
+Print Assumptions sim_compact_step_gen.
+Print Assumptions sim_compact_step.
+Print Assumptions sim_compact_run.
+Print Assumptions sim_db_compact.
+Print Assumptions chain_put_ok.
+Print Assumptions chain_delete_ok.
+Print Assumptions chain_get_ok.
+Print Assumptions chain_get_append_ok.
+Print Assumptions chain_has_ok.
+Print Assumptions chain_count_ok.
+Print Assumptions chain_items_ok.
+Print Assumptions chain_sync_ok.
+Print Assumptions step_refines.
+Print Assumptions C01_chain_refines_map.
+Print Assumptions chain_run_states.
+Print Assumptions init_rel.
+Print Assumptions C01_chain_from_empty.
+Print Assumptions SimEx.ex_shape.
+Print Assumptions SimEx.ex_rel.
+Print Assumptions SimEx.ex_rel2.
+Print Assumptions SimEx.ex_other_order.
+Print Assumptions SimEx.ex_outputs.
